@@ -27,13 +27,13 @@ RULE = (
     "every symbolic tensor parameter compared with a central finite difference of the reference (step "
     "1e-6 scaled, Richardson), every continuous input column too; 3 semirings; gradients compared "
     "symbol-by-symbol across the 4 flag combinations; boundary valuations with exact zeros"
-    " Also: partly frozen circuits (frozen next to learnable tensors of equal shape), tiny-exp weights with a loss on log-values, a backward pass in eval() mode compared with training mode, self-validated finite differences;"
+    " Also: partly frozen circuits (frozen next to learnable tensors of equal shape), tiny-exp weights with a loss on log-values, a backward pass in eval() mode compared with training mode, self-validated finite differences, a no_grad (train / eval mode) evaluation of the same compiled circuit right before the backward pass in 2 of 3 cases;"
 )
 EXHAUSTIVE_SUBSPACES = ["every entry of every symbolic tensor parameter of every case", "all 4 (fold, optimize) combinations"]
 ASSUMPTIONS = ["reference interpreter vf/ref.py is differentiated numerically (central differences + one Richardson step, tolerance 2e-5 of the abs-scale)"]
 FLOOR = {"ccp:pointer-fold-idx": 1, "cc:TorchTensorDotLayer": 1, "cc:TorchTuckerLayer": 1, "cc:TorchCPTLayer": 1, "sr:complex-lse-sum": 1, "sr:lse-sum": 1,
          "ccp:TorchLogSoftmaxParameter": 1, "p:IndexParameter": 1, "grad_entries_compared": 500, "flag_pairs_compared": 20, "input-gradient": 1,
-         "gradcheck": 1, "zero-boundary": 1, "tiny-values": 1, "backward-in-eval-mode": 1}
+         "gradcheck": 1, "zero-boundary": 1, "tiny-values": 1, "backward-in-eval-mode": 1, "warmup:no-grad": 1, "warmup:eval-no-grad": 1}
 
 
 def plan(tier, seed):
@@ -238,6 +238,18 @@ def run_case(case) -> Result:
         if not np.all(np.isfinite(a0)) or (sr == "lse-sum" and np.any(np.real(r0) <= 0)):
             res.note = "reference not in the differentiable domain; skipped"
             return res
+        # evaluation history before the backward pass: anything materialised while autograd was off
+        # (inference, validation between training steps) must not be reused by the differentiated pass
+        warm = ("none", "no-grad", "eval-no-grad")[case["k"] % 3]
+        if warm != "none":
+            try:
+                if warm == "eval-no-grad":
+                    cc_.eval()
+                with torch.no_grad():
+                    cc_(C.to_tensor(X)) if X is not None else cc_()
+            finally:
+                cc_.train()
+            res.features.add("warmup:" + warm)
         for part in parts:
             for m in cc_.parameters():
                 m.grad = None
